@@ -21,7 +21,7 @@ RULE = ('generated whitelists (length 3-6 over ACGTN, 1-30 entries incl. distanc
 ASSUMPTIONS = ['no byte-identical barcode twice in a generated file; for shipped files with duplicates either index is accepted',
                'generated cell indices contain a character outside ACGTNX (column-order sniffing is documented to be ambiguous otherwise) or are plain integers',
                'Hamming distance is defined between strings of equal length only']
-MIN_NONTRIVIAL = {'quick': 5000, 'thorough': 100000}
+MIN_NONTRIVIAL = {'quick': 5000, 'thorough': 1000000}
 REQUIRED_MONITORS = ['history:touch_before_first_lookup', 'hook:getIndexCorrectedBarcodeAndHammingDistance', 'oracle:assigned', 'oracle:tie', 'oracle:too_far']
 EXHAUSTIVE = {'quick': False, 'thorough': False}
 SHARD_TIMEOUT = {'quick': 600, 'thorough': 3600}
@@ -117,7 +117,7 @@ def gen_whitelist(r, L, n):
 
 def gen_cases(tier, seed):
     cases = []
-    n_gen = 48 if tier == 'quick' else 480
+    n_gen = 48 if tier == 'quick' else 2400
     for i in range(n_gen):
         r = rng(seed, 'C03', 'gen', i)
         L = r.choice([3, 4, 4, 5, 5] if tier == 'quick' else [3, 4, 5, 5, 6, 6])
